@@ -320,14 +320,16 @@ func GetHtmlMetadata(wrapperElement *HTMLNode, baseUrl string) DocumentMetadata 
 		created, modified             time.Time
 		keywordsSet                   = map[string]bool{}
 		attachments                   = []Attachment{}
+		hasTitle                      bool
 	)
 	iter := wrapperElement.Iter(atom.Title, atom.Meta, atom.Link)
 	for iter.HasNext() {
 		element := iter.Next()
 		switch element.DataAtom {
 		case atom.Title:
-			if title == "" {
+			if !hasTitle { // the first <title> element, even if empty
 				title = string(element.GetChildrenText())
+				hasTitle = true
 			}
 		case atom.Meta:
 			name := AsciiLower(element.Get("name"))
